@@ -289,6 +289,69 @@ theorem lpFeasible_sound {lp : LP K} {x : List K} (h : lpFeasible lp x = true) :
   simp only [ef_ofInt, Int.cast_zero] at this
   exact rowHolds_zero_sound this
 
+/-! ### feasibility within a tolerance (C04) -/
+
+def RowSatTol (tol : K) (x : List K) (r : Row K) : Prop :=
+  match r.rel with
+  | .le => dot r.coeffs x ≤ r.rhs + tol
+  | .ge => r.rhs - tol ≤ dot r.coeffs x
+  | .eq => |dot r.coeffs x - r.rhs| ≤ tol
+
+/-- a value is in its domain within `tol` (appendix A `InDomain`, relaxed by the tolerance). -/
+def DomSatTol (tol : K) (x : K) : Dom K → Prop
+  | .cont lo hi => (∀ l, lo = some l → l - tol ≤ x) ∧ (∀ h, hi = some h → x ≤ h + tol)
+  | .int lo hi => ∃ n : ℤ, |x - (n : K)| ≤ tol ∧ lo ≤ n ∧ n ≤ hi
+  | .bool => |x| ≤ tol ∨ |x - 1| ≤ tol
+
+def DomsSatTol (tol : K) : List K → List (Dom K) → Prop
+  | [], [] => True
+  | x :: xs, d :: ds => DomSatTol tol x d ∧ DomsSatTol tol xs ds
+  | _, _ => False
+
+/-- `x` gives exactly one value to every variable and satisfies every row and every domain within `tol`. -/
+def FeasibleWithin (p : Prob K) (x : List K) (tol : K) : Prop :=
+  (∀ r ∈ p.rows, r.coeffs.length = x.length ∧ RowSatTol tol x r) ∧ DomsSatTol tol x p.doms
+
+theorem absK_eq (a : K) : absK a = |a| := by
+  unfold absK
+  simp only [ef_lt, ef_ofInt, Int.cast_zero, decide_eq_true_eq, ef_neg]
+  split
+  · rename_i h; rw [abs_of_neg h]
+  · rename_i h; rw [abs_of_nonneg (not_lt.mp h)]
+
+theorem rowHolds_sound {tol : K} {x : List K} {r : Row K} (h : rowHolds tol x r = true) : RowSatTol tol x r := by
+  unfold rowHolds at h
+  unfold RowSatTol
+  cases hrel : r.rel <;> simp [hrel] at h ⊢
+  · exact h
+  · linarith
+  · rw [abs_le]; constructor <;> linarith [h.1, h.2]
+
+theorem domHolds_sound {tol x : K} {d : Dom K} (h : domHolds tol x d = true) : DomSatTol tol x d := by
+  cases d with
+  | cont lo hi =>
+    simp only [domHolds, Bool.and_eq_true] at h
+    constructor
+    · intro l hl; have := h.1; simp [loHolds, hl] at this; linarith
+    · intro u hu; have := h.2; simp [hiHolds, hu] at this; exact this
+  | int lo hi =>
+    simp only [domHolds, Bool.and_eq_true, decide_eq_true_eq] at h
+    refine ⟨roundK x, ?_, h.1.2, h.2⟩
+    have := h.1.1
+    simp only [ef_le, decide_eq_true_eq, absK_eq, ef_sub, ef_ofInt] at this
+    exact this
+  | bool =>
+    simp only [domHolds, Bool.or_eq_true, ef_le, decide_eq_true_eq, absK_eq, ef_sub, ef_ofInt, Int.cast_one] at h
+    exact h
+
+theorem domsHold_sound {tol : K} : ∀ (x : List K) (ds : List (Dom K)), domsHold tol x ds = true → DomsSatTol tol x ds
+  | [], [], _ => trivial
+  | x :: xs, d :: ds, h => by
+    simp only [domsHold, Bool.and_eq_true] at h
+    exact ⟨domHolds_sound h.1, domsHold_sound xs ds h.2⟩
+  | [], _ :: _, h => by simp [domsHold] at h
+  | _ :: _, [], h => by simp [domsHold] at h
+
 /-! ### moving along a ray -/
 
 /-- `x + t·r` -/
